@@ -2251,6 +2251,234 @@ theorem buildRhs'P_plain (u : UCfg') (ks : List String) (sys : Sys) :
     | ok a => simp
     | error e => cases e <;> simp
 
+/-! ### linear invariants on the GENERATED right-hand sides -/
+
+theorem sum_map_sum_comm {α β : Type} (l₁ : List α) (l₂ : List β) (g : α → β → R) :
+    (l₁.map fun a => (l₂.map fun b => g a b).sum).sum = (l₂.map fun b => (l₁.map fun a => g a b).sum).sum := by
+  induction l₁ with
+  | nil => simp
+  | cons a t ih =>
+    simp only [List.map_cons, List.sum_cons, ih]
+    rw [← List.sum_map_add]
+
+theorem sum_map_mul_left' {α : Type} (l : List α) (c : R) (g : α → R) : (l.map fun a => c * g a).sum = c * (l.map g).sum := by
+  induction l with
+  | nil => simp
+  | cons a t ih => simp only [List.map_cons, List.sum_cons, ih]; ring
+
+/-- the weighted sum of `Nᵀ·r` over the substances vanishes for every weight that each reaction conserves -/
+theorem weighted_kinetic_sum_zero {γ : Type} (subs : List γ) (name : γ → String) (w : γ → R) (rxns : List Rxn) (rate : Rxn → R)
+    (hbal : ∀ r ∈ rxns, (subs.map fun sc => w sc * ((netOf r (name sc) : ℤ) : R)).sum = 0) :
+    (subs.map fun sc => w sc * (rxns.map fun r => ((netOf r (name sc) : ℤ) : R) * rate r).sum).sum = 0 := by
+  have h1 : (subs.map fun sc => w sc * (rxns.map fun r => ((netOf r (name sc) : ℤ) : R) * rate r).sum) =
+      subs.map fun sc => (rxns.map fun r => rate r * (w sc * ((netOf r (name sc) : ℤ) : R))).sum := by
+    apply List.map_congr_left
+    intro sc _
+    rw [← sum_map_mul_left']
+    congr 1
+    apply List.map_congr_left
+    intro r _
+    ring
+  rw [h1, sum_map_sum_comm]
+  apply List.sum_eq_zero
+  intro x hx
+  obtain ⟨r, hr, rfl⟩ := List.mem_map.mp hx
+  rw [sum_map_mul_left', hbal r hr, mul_zero]
+
+/-- pointwise description of a list ⇒ the list -/
+theorem map_eq_of_getElem? {α : Type} (exprs : List (Poly String)) (keys : List String) (f : Poly String → α) (g : String → α)
+    (hl : exprs.length = keys.length)
+    (h : ∀ (i : ℕ) (s : String), keys[i]? = some s → ∃ e, exprs[i]? = some e ∧ f e = g s) :
+    exprs.map f = keys.map g := by
+  apply List.ext_getElem?
+  intro i
+  rw [List.getElem?_map, List.getElem?_map]
+  cases hk : keys[i]? with
+  | none =>
+    have : exprs[i]? = none := by
+      rw [List.getElem?_eq_none_iff] at hk ⊢
+      omega
+    simp [this]
+  | some s =>
+    obtain ⟨e, he, hfe⟩ := h i s hk
+    simp [he, hfe]
+
 end General
+
+end ChemModel.OdeBuild
+
+namespace ChemModel.OdeBuild
+open ChemModel.Kinetics
+
+/-! ## J. when `_create_odesys` accepts -/
+section AcceptCreate
+
+/-- the keys one reaction contributes to `parameter_symbols` (no refusal: plain numbers are excluded by hypothesis) -/
+def keysOfParam' (pe : List (String × ℚ)) : RateParam → List String
+  | .raw _ => []
+  | .ma _ => []
+  | .named uk _ => [uk]
+  | .key uk => if dmem pe uk then [] else [uk]
+  | .sym uk => [uk]
+
+/-- the keys `_create_odesys` collects from the reactions, in reaction order -/
+def createKeys (pe : List (String × ℚ)) : List Rxn → List String
+  | [] => []
+  | r :: t => keysOfParam' pe r.param ++ createKeys pe t
+
+theorem collectKeys_eq (pe : List (String × ℚ)) :
+    ∀ (rxns : List Rxn), (∀ r ∈ rxns, ∀ k, r.param ≠ .raw k) → collectKeys pe rxns = .ok (createKeys pe rxns) := by
+  intro rxns
+  induction rxns with
+  | nil => intro _; rfl
+  | cons r t ih =>
+    intro h
+    have ht := ih (fun r' hr' => h r' (List.mem_cons_of_mem _ hr'))
+    have hr := h r (by simp)
+    cases hp : r.param with
+    | raw k => exact absurd hp (hr k)
+    | ma k => simp [collectKeys, keysOfParam, hp, ht, createKeys, keysOfParam']
+    | named uk k => simp [collectKeys, keysOfParam, hp, ht, createKeys, keysOfParam']
+    | key uk => simp [collectKeys, keysOfParam, hp, ht, createKeys, keysOfParam']
+    | sym uk => simp [collectKeys, keysOfParam, hp, ht, createKeys, keysOfParam']
+
+theorem mem_createKeys {pe : List (String × ℚ)} {rxns : List Rxn} {r : Rxn} {k : String} (hr : r ∈ rxns)
+    (hk : k ∈ keysOfParam' pe r.param) : k ∈ createKeys pe rxns := by
+  induction rxns with
+  | nil => simp at hr
+  | cons a t ih =>
+    simp only [createKeys, List.mem_append]
+    rcases List.mem_cons.mp hr with rfl | hr
+    · exact Or.inl hk
+    · exact Or.inr (ih hr)
+
+theorem dedupKeys_eq_of_nodup {l : List String} (h : l.Nodup) : dedupKeys l = l := by
+  induction l with
+  | nil => rfl
+  | cons a t ih =>
+    rw [List.nodup_cons] at h
+    simp only [dedupKeys, ih h.2]
+    congr 1
+    rw [List.filter_eq_self]
+    intro x hx
+    have : x ≠ a := fun e => h.1 (e ▸ hx)
+    simp [this]
+
+/-- **`_create_odesys` accepts** (default symbols): no plain-number parameter, the collected keys and CSTR keys are pairwise
+    distinct, `'time'` / `'t'` are not used as names, no key that is read raw (active reactant, `Symbol` argument, CSTR key) is a
+    `parameter_expressions` key, every active reactant is a substance, every substance takes part in some reaction or the tank
+    is fed, and the constants are sympy numbers. -/
+theorem buildRhs'_accepts (cfg : Cfg') (sys : Sys) (hpe : (dkeys cfg.paramExprs).Nodup)
+    (hnoraw : ∀ r ∈ sys.rxns, ∀ k, r.param ≠ .raw k)
+    (hkeys : (createKeys cfg.paramExprs sys.rxns ++ cstrKeys (cstrOf cfg.cstr sys.subst)).Nodup)
+    (htime : "time" ∉ sys.subst ∧ "time" ∉ createKeys cfg.paramExprs sys.rxns ++ cstrKeys (cstrOf cfg.cstr sys.subst) ∧
+      "time" ∉ referenced sys.rxns ∧ "time" ∉ dkeys cfg.paramExprs)
+    (ht : "t" ∉ sys.subst ∧ "t" ∉ createKeys cfg.paramExprs sys.rxns ++ cstrKeys (cstrOf cfg.cstr sys.subst))
+    (hraw : ∀ k ∈ rawReads sys.rxns (cstrOf cfg.cstr sys.subst), k ∉ dkeys cfg.paramExprs)
+    (hreac : ∀ r ∈ sys.rxns, ∀ j ∈ dkeys r.reac, j ∈ sys.subst)
+    (hpart : cfg.cstr = true ∨ ∀ s ∈ sys.subst, ∃ r ∈ sys.rxns, s ∈ speciesOf r)
+    (hpy : cfg.pyNums = false) : ∃ o, buildRhs' cfg sys = .ok o := by
+  -- raw reads
+  have hrawReac : ∀ r ∈ sys.rxns, ∀ j ∈ dkeys r.reac, j ∈ rawReads sys.rxns (cstrOf cfg.cstr sys.subst) := by
+    intro r hr j hj
+    simp only [rawReads, List.mem_append, List.mem_flatten, List.mem_map]
+    exact Or.inl ⟨_, ⟨r, hr, rfl⟩, List.mem_append_left _ hj⟩
+  have hrawSym : ∀ r ∈ sys.rxns, ∀ uk, r.param = .sym uk → uk ∈ rawReads sys.rxns (cstrOf cfg.cstr sys.subst) := by
+    intro r hr uk hp
+    simp only [rawReads, List.mem_append, List.mem_flatten, List.mem_map]
+    exact Or.inl ⟨_, ⟨r, hr, rfl⟩, List.mem_append_right _ (by simp [hp])⟩
+  have hrawCs : ∀ k ∈ cstrNeeded (cstrOf cfg.cstr sys.subst), k ∈ rawReads sys.rxns (cstrOf cfg.cstr sys.subst) := by
+    intro k hk
+    simp only [rawReads, List.mem_append]
+    exact Or.inr hk
+  -- defined keys
+  have hdefKey : ∀ k ∈ createKeys cfg.paramExprs sys.rxns ++ cstrKeys (cstrOf cfg.cstr sys.subst), k ∉ dkeys cfg.paramExprs →
+      dmem (mkVars sys.subst (createKeys cfg.paramExprs sys.rxns ++ cstrKeys (cstrOf cfg.cstr sys.subst)) cfg.paramExprs) k = true :=
+    fun k hk hn => (dmem_mkVars_not_subs _ _ _ hn).mpr (Or.inl hk)
+  have hdefPe : ∀ k ∈ dkeys cfg.paramExprs,
+      dmem (mkVars sys.subst (createKeys cfg.paramExprs sys.rxns ++ cstrKeys (cstrOf cfg.cstr sys.subst)) cfg.paramExprs) k = true := by
+    intro k hk
+    cases hv : dget? cfg.paramExprs k with
+    | none => exact absurd hk (dget?_eq_none_iff.mp hv)
+    | some v => simp [dmem, dget?_mkVars_subs _ _ _ hpe hv]
+  have hdefSubst : ∀ s ∈ sys.subst, s ∉ dkeys cfg.paramExprs →
+      dmem (mkVars sys.subst (createKeys cfg.paramExprs sys.rxns ++ cstrKeys (cstrOf cfg.cstr sys.subst)) cfg.paramExprs) s = true :=
+    fun s hs hn => (dmem_mkVars_not_subs _ _ _ hn).mpr (Or.inr hs)
+  have hres : ∀ r ∈ sys.rxns,
+      (resolve (mkVars' sys.subst (createKeys cfg.paramExprs sys.rxns ++ cstrKeys (cstrOf cfg.cstr sys.subst)) cfg.paramExprs) r.param).isSome = true ∧
+      ∀ j ∈ dkeys r.reac,
+        dmem (mkVars' sys.subst (createKeys cfg.paramExprs sys.rxns ++ cstrKeys (cstrOf cfg.cstr sys.subst)) cfg.paramExprs) j = true := by
+    intro r hr
+    refine ⟨?_, fun j hj => hdefSubst j (hreac r hr j hj) (hraw j (hrawReac r hr j hj))⟩
+    cases hp : r.param with
+    | raw k => exact absurd hp (hnoraw r hr k)
+    | ma k => rfl
+    | named uk k => simp only [resolve]; split <;> rfl
+    | key uk =>
+      show (dget? _ uk).isSome = true
+      by_cases hm : uk ∈ dkeys cfg.paramExprs
+      · exact hdefPe uk hm
+      · apply hdefKey uk _ hm
+        apply List.mem_append_left
+        apply mem_createKeys hr
+        simp [keysOfParam', hp, dmem_false_of_not_mem hm]
+    | sym uk =>
+      show (dget? _ uk).isSome = true
+      apply hdefKey uk _ (hraw uk (hrawSym r hr uk hp))
+      apply List.mem_append_left
+      apply mem_createKeys hr
+      simp [keysOfParam', hp]
+  obtain ⟨rs, hrs, hkeysR⟩ := resolveAll_succeeds _ sys.rxns hres
+  have hmem : ∀ s ∈ sys.subst, s ∈ dkeys (sysRates (lookup (mkVars' sys.subst
+      (createKeys cfg.paramExprs sys.rxns ++ cstrKeys (cstrOf cfg.cstr sys.subst)) cfg.paramExprs)) rs none (cstrOf cfg.cstr sys.subst)) := by
+    intro s hs
+    rw [← dkeys_dmap (ev (fun _ => (0 : ℚ))), dmap_sysRates (opsHom_ev _), C03.sysRates_keys]
+    have hk2 : (∃ r ∈ rs.map (mapR (ev (fun _ => (0 : ℚ)))), s ∈ keysFor none r) ↔ ∃ r ∈ rs, s ∈ rxnKeys r := by
+      simp only [List.mem_map, keysFor]
+      constructor
+      · rintro ⟨r', ⟨r, hr, rfl⟩, h⟩; exact ⟨r, hr, h⟩
+      · rintro ⟨r, hr, h⟩; exact ⟨_, ⟨r, hr, rfl⟩, h⟩
+    rw [hk2, hkeysR s]
+    rcases hpart with hc | hp
+    · refine Or.inr ⟨{ frKey := "feedratio", fc := sys.subst.map fun s => (s, "fc_" ++ s) }, by simp [cstrOf, hc], ?_⟩
+      simpa [dkeys, Function.comp_def] using hs
+    · exact Or.inl (hp s hs)
+  obtain ⟨es, hes⟩ := readAll_succeeds _ sys.subst hmem
+  unfold buildRhs'
+  dsimp only
+  simp only [collectKeys_eq cfg.paramExprs sys.rxns hnoraw]
+  rw [if_neg (by rw [dedupKeys_eq_of_nodup hkeys]; simp)]
+  rw [if_neg (by
+    simp only [Bool.or_eq_true, decide_eq_true_eq, not_or]
+    exact ⟨⟨⟨htime.1, htime.2.1⟩, htime.2.2.1⟩, htime.2.2.2⟩)]
+  rw [if_neg (by
+    simp only [Bool.or_eq_true, decide_eq_true_eq, not_or]
+    exact ⟨ht.1, ht.2⟩)]
+  rw [if_neg (by
+    simp only [List.any_eq_true, not_exists, not_and, Bool.not_eq_true]
+    intro k hk
+    exact dmem_false_of_not_mem (hraw k hk))]
+  simp only [hrs]
+  rw [if_pos (by
+    apply List.all_eq_true.mpr
+    intro k hk
+    have hn := hraw k (hrawCs k hk)
+    by_cases hc : cfg.cstr = true
+    · have hk' : k ∈ cstrNeeded (cstrOf true sys.subst) := by simpa [hc] using hk
+      simp only [cstrOf, if_true, cstrNeeded, List.map_map, List.mem_flatten, List.mem_map, Function.comp_def] at hk'
+      obtain ⟨l, ⟨s, hs, rfl⟩, hkl⟩ := hk'
+      simp only [List.mem_cons, List.not_mem_nil, or_false] at hkl
+      rcases hkl with rfl | rfl | rfl
+      · exact hdefKey _ (List.mem_append_right _ (by simp [hc, cstrOf, cstrKeys])) hn
+      · exact hdefKey _ (List.mem_append_right _ (by
+          simp only [hc, cstrOf, if_true, cstrKeys, List.map_map, List.mem_cons, List.mem_map, Function.comp_def]
+          exact Or.inr ⟨s, hs, rfl⟩)) hn
+      · exact hdefSubst _ hs hn
+    · have hf : cfg.cstr = false := by simpa using hc
+      simp [hf, cstrOf, cstrNeeded] at hk)]
+  simp only [hes, hpy, pyNumberEntry, Bool.false_and, List.any_eq_true, Bool.false_eq_true, and_false, exists_false, if_false]
+  exact ⟨_, rfl⟩
+
+end AcceptCreate
 
 end ChemModel.OdeBuild
